@@ -250,7 +250,15 @@ impl WedgeExec {
 pub fn random_client(rng: &Prng) -> String {
     match rng.below(12) {
         0 | 1 => "get".into(),
-        2 => format!("split:{}", 1 + rng.below(GET.len() as u64 - 1)),
+        2 | 11 => {
+            // every offset, with the ones around the end of the headers and the verb favoured
+            let l = GET.len() as u64;
+            let n = match rng.below(3) {
+                0 => *rng.pick(&[1, 3, 4, 5, l - 5, l - 4, l - 3, l - 2, l - 1]),
+                _ => 1 + rng.below(l - 1),
+            };
+            format!("split:{n}")
+        }
         3 | 4 => format!("cut:{}", *rng.pick(&[0u64, 1, 3, 4, 20, GET.len() as u64 - 1, GET.len() as u64 - 2])),
         5 => format!("long:{}", *rng.pick(&[2047u64, 2048, 2049, 4096, 100, 10000])),
         6 => format!("verb:{}", *rng.pick(&["POST", "HEAD", "PUT", "get", "GETX", "OPTIONS"])),
@@ -283,8 +291,9 @@ pub fn generate(out: &mut Out, rng: &Prng, thorough: bool, workdir: &Path) {
             if line == "EXP final" && !o.starts_with("200 ") {
                 out.oracle("C20", "later-request-not-answered", &format!("{line} -> {o}"));
             }
-            if let Some(rest) = line.strip_prefix("EXP c get ") {
-                // a well-formed request is answered: with the data, or with an error status when there is none
+            let wellformed = line.strip_prefix("EXP c get ").or_else(|| line.strip_prefix("EXP c split:").and_then(|r| r.split_once(' ').map(|x| x.1)));
+            if let Some(rest) = wellformed {
+                // a well-formed request (in one piece or two) is answered: with the data, or with an error status when there is none
                 let want = if rest == "valid" { "200" } else { "500" };
                 if !o.starts_with(want) && !o.contains("exited") {
                     out.oracle("C20", &format!("well-formed-request-gets-{}", o.split(' ').next().unwrap_or("")), &format!("{line} -> {o} (expected {want})"));
